@@ -52,13 +52,13 @@ def _ngroups(case):
 
 def _out_array(out):
     if isinstance(out, pl.Series):
-        return out.to_numpy()
+        return api.pl_to_numpy(out)
     if isinstance(out, (pd.Series, pd.Index)):
-        return out.to_numpy()
+        return api.pd_to_numpy(out)
     if isinstance(out, pd.DataFrame):
-        return out.iloc[:, 0].to_numpy()
+        return api.pd_to_numpy(out.iloc[:, 0])
     if isinstance(out, pl.DataFrame):
-        return out.to_series(0).to_numpy()
+        return api.pl_to_numpy(out.to_series(0))
     a = np.asarray(out)
     return a[:, 0] if a.ndim == 2 and a.shape[1] == 1 else a
 
@@ -332,4 +332,37 @@ def run_select(case):
     tr["rows"] = rows
     if not rle:
         tr["ridx"] = [int(x) for x in out.index.tolist()]
+    return tr
+
+
+# ------------------------------------------------------------------------------------------ growth: group_nearby_members
+def run_nearby(case):
+    """case: keys (ids), vals (small ints, monotone or not), maxdiff, kenc, kcont, vdt, T, level, pre (ops called before)."""
+    from groupby_lib import GroupBy
+    from groupby_lib.groupby import numba as nbf
+    api.set_config(case)
+    ids = case["keys"]
+    tr = {"keys": ids, "vals": case["vals"], "maxdiff": case["maxdiff"],
+          "cfg": {k: case.get(k) for k in ("kenc", "kcont", "vdt", "T", "level", "pre")}}
+    vals = np.array(case["vals"], dtype=case.get("vdt", "float64"))
+    try:
+        if case.get("level") == "numba":
+            codes = np.array([-1 if i == NULL else i - 1 for i in ids], dtype=np.int64)
+            out = call(nbf.group_nearby_members, codes, vals, case["maxdiff"], max([i for i in ids if i != NULL] or [0]))
+        else:
+            e = api.key_encoder(case.get("kenc", "f64"))
+            gb = call(GroupBy, api.wrap_container(e.enc(ids), case.get("kcont", "np")))
+            for pre in case.get("pre") or []:
+                if pre == "groups":
+                    gb.groups
+                elif pre == "cumsum":
+                    call(gb.cumsum, vals.astype(float))
+                elif pre == "sum":
+                    call(gb.sum, vals.astype(float))
+            out = call(gb.group_nearby_members, vals, case["maxdiff"])
+    except Exception as ex:
+        tr.update(out="raise", exc=type(ex).__name__, msg=str(ex)[:160], res=[])
+        return tr
+    tr["out"] = "ok"
+    tr["res"] = [int(x) for x in np.asarray(out).tolist()]
     return tr
